@@ -34,7 +34,10 @@ class C17(Prop):
 
     def one(self, exe, n, seed, iters):
         env = dict(os.environ); env['TSAN_OPTIONS'] = 'halt_on_error=0:exitcode=66:report_signal_unsafe=0'
-        p = subprocess.run([exe, str(n), str(seed), str(iters)], capture_output=True, text=True, timeout=1200, env=env)
+        try:
+            p = subprocess.run([exe, str(n), str(seed), str(iters)], capture_output=True, text=True, timeout=60 + iters // 2, env=env)
+        except subprocess.TimeoutExpired:
+            return 'the threaded workload did not terminate (the same workload run alone takes about a second)', {}
         multi = {}; single = {}
         for l in p.stdout.split('\n'):
             w = l.split()
